@@ -1713,6 +1713,14 @@ func stepCandidate(r *raft, m *pb.Message) error {
 			if r.state == StatePreCandidate {
 				r.campaign(campaignElection)
 			} else {
+				if _, selfVoted := r.trk.Votes[r.id]; !selfVoted {
+					// Our own vote (and with it the term we are campaigning
+					// in) is delivered back to us only once it is durable. Do
+					// not lead a term that our storage does not know yet: a
+					// crash would let us campaign for, and lead, the same term
+					// a second time. The self-vote completes the election.
+					return nil
+				}
 				r.becomeLeader()
 				r.bcastAppend()
 			}
